@@ -361,7 +361,26 @@ def bounded_stand_in(pid, seed, why, tier="quick"):
     binary, err = brun.build_binary(zv.REPO)
     if not binary:
         return {"ran": False, "reason": "the current tree does not build: " + err[-400:]}, []
-    r = brun.run(pid, binary, seed, tier=tier)
+    # the cases are the same whatever the property (a failing case names the properties it speaks about): the records are
+    # kept per (binary content, case files, seed, tier), so that checking nineteen properties of one tree runs them once
+    import hashlib
+    h = hashlib.sha256(open(binary, "rb").read())
+    for f in sorted(os.listdir(os.path.join(VERIF, "bounded"))):
+        if f.endswith(".py"):
+            h.update(open(os.path.join(VERIF, "bounded", f), "rb").read())
+    cdir = os.path.join(zv.BUILD, "cache")
+    os.makedirs(cdir, exist_ok=True)
+    cpath = os.path.join(cdir, "bounded-%s-%d-%s.json" % (h.hexdigest()[:24], seed, tier))
+    from_cache = False
+    if os.path.exists(cpath) and not os.environ.get("ZV_NO_BOUNDED_CACHE"):
+        recs = json.load(open(cpath))
+        from_cache = True
+    else:
+        recs = brun.run_all(binary, seed, tier=tier)
+        tmpc = cpath + ".%d.tmp" % os.getpid()
+        json.dump(recs, open(tmpc, "w"))
+        os.replace(tmpc, cpath)
+    r = brun.summarise(pid, recs, seed)
     confirmed = []
     for rec in r["failed"][:4]:
         # a failing case counts only if it fails again when run alone (no load from the other cases)
@@ -381,7 +400,7 @@ def bounded_stand_in(pid, seed, why, tier="quick"):
                    "replay_cmd": "python3 bounded/run.py %s --case '%s'" % (pid, rec["case"])}, open(path, "w"), indent=1)
         out.append((rec, path))
     info = {k: r[k] for k in ("label", "families", "cases", "passed", "bound", "sample_cases", "harness_errors", "failed_for_other_properties")}
-    info.update({"ran": True, "why": why, "failed_cases": [x["case"] for x in confirmed], "flaky_cases": [x["case"] for x in r["failed"] if x.get("not_reproduced_when_run_alone")], "wall_s": round(time.time() - t0, 1)})
+    info.update({"ran": True, "why": why, "records_reused_from_an_earlier_check_of_the_same_binary": from_cache, "failed_cases": [x["case"] for x in confirmed], "flaky_cases": [x["case"] for x in r["failed"] if x.get("not_reproduced_when_run_alone")], "wall_s": round(time.time() - t0, 1)})
     return info, out
 
 
